@@ -1062,7 +1062,17 @@ def application(pm, ctx):
                 names_ = [t_.id] if isinstance(t_, ast.Name) else ([e.id for e in t_.elts if isinstance(e, ast.Name)] if isinstance(t_, (ast.Tuple, ast.List)) and len(t_.elts) == 1 else [])
                 if name in names_:
                     out_.append(s_)
-        return sorted(out_, key=lambda s_: s_.lineno)
+        return sorted(out_, key=lambda s_: _order.get(id(s_), 0))
+    _order = {}
+
+    def _number(stmts):
+        for s_ in stmts:
+            _order[id(s_)] = len(_order)
+            for fld in ("body", "orelse", "finalbody"):
+                b_ = getattr(s_, fld, None)
+                if isinstance(b_, list):
+                    _number(b_)
+    _number(body.body if hasattr(body, "body") else [])
     from ..pm import canon_node
     site = "Kauri.fit: applied partition"
     la = _assigns("left_indices")
@@ -1073,7 +1083,7 @@ def application(pm, ctx):
         if isinstance(v, ast.Subscript) and norm_src(v.value) == "leaf_indices":
             sel = v.slice
             if isinstance(sel, ast.Name):
-                prev = [s_ for s_ in _assigns(sel.id) if s_.lineno < last.lineno]
+                prev = [s_ for s_ in _assigns(sel.id) if _order.get(id(s_), -1) < _order.get(id(last), 0)]
                 r_ = _positions(prev[-1].value, prev[-1].targets[0]) if prev else None
             else:
                 r_ = _positions(sel)
@@ -1123,7 +1133,7 @@ def application(pm, ctx):
         else:
             ctx.violation("C08-f", ku.relpath, "Kauri.fit", norm_src(inc[0]), "n_leaves is not incremented exactly once after every use of the new leaf's id", line=inc[0].lineno)
     # cluster count bump
-    inc = _cluster_increment(body.body)
+    inc = _cluster_increment(body.body, {n_.name: n_ for n_ in ku.tree.body if isinstance(n_, ast.FunctionDef)})
     site = "Kauri.fit: n_clusters"
     if inc is None:
         ctx.unrecognised("C08-f", site, "no update of n_clusters from the recorded targets")
@@ -1139,7 +1149,7 @@ def application(pm, ctx):
                           f"it grows by {table.get(bad)}", line=stmt.lineno)
 
 
-def _cluster_increment(stmts):
+def _cluster_increment(stmts, helpers=None):
     """(first statement involved, {(left target is new, right target is new): increment of n_clusters}) from the statements of the application block, by
     evaluating them for the four truth values of `best_split.left_target >= n_clusters` and `best_split.right_target >= n_clusters`. None = not recognised."""
     from ..pm import canon_node
@@ -1176,6 +1186,48 @@ def _cluster_increment(stmts):
                 return int(ev(e.args[0])) if e.func.id == "int" else bool(ev(e.args[0]))
             if isinstance(e, ast.IfExp):
                 return ev(e.body) if ev(e.test) else ev(e.orelse)
+            if isinstance(e, ast.Call) and isinstance(e.func, ast.Name) and helpers and e.func.id in helpers and not e.keywords:
+                # a loop-free module-level helper (e.g. `_count_new_clusters(split, n_clusters)`): its body is evaluated with the arguments substituted
+                g = helpers[e.func.id]
+                ps = [a.arg for a in g.args.args]
+                if len(ps) != len(e.args):
+                    raise Unknown()
+                m = dict(zip(ps, e.args))
+                from ..astutil import clone as _cl
+
+                class S(ast.NodeTransformer):
+                    def visit_Name(self, n):
+                        if isinstance(n.ctx, ast.Load) and n.id in m:
+                            return _cl(m[n.id])
+                        return n
+
+                def sub(x):
+                    y = S().visit(_cl(x))
+                    for n_ in ast.walk(y):
+                        for a_ in ("_ns", "_cn", "_cn_done"):
+                            if hasattr(n_, a_):
+                                delattr(n_, a_)
+                    return ast.fix_missing_locations(y)
+
+                def run_body(ss):
+                    for s2 in ss:
+                        if isinstance(s2, ast.Return):
+                            return ("ret", ev(sub(s2.value)))
+                        if isinstance(s2, ast.Assign) and len(s2.targets) == 1 and isinstance(s2.targets[0], ast.Name) and s2.targets[0].id not in m:
+                            env[s2.targets[0].id] = ev(sub(s2.value))
+                        elif isinstance(s2, ast.If):
+                            r2 = run_body(s2.body if ev(sub(s2.test)) else s2.orelse)
+                            if r2 is not None:
+                                return r2
+                        elif isinstance(s2, ast.Expr) and isinstance(s2.value, ast.Constant):
+                            continue
+                        else:
+                            raise Unknown()
+                    return None
+                r3 = run_body(g.body)
+                if r3 is None:
+                    raise Unknown()
+                return r3[1]
             raise Unknown()
 
         def mentions(node):
